@@ -285,4 +285,7 @@ def _kind(k1, k2):
     return '%s-%s' % (type(k1).__name__, type(k2).__name__)
 
 
+from ..fuzz import FuzzCampaign  # noqa: E402
+
 SUBCHECKS = [Pairs()]
+SUBCHECKS.append(FuzzCampaign('c02', SUBCHECKS[0], runs_quick=2000, runs_thorough=60000))
